@@ -625,4 +625,11 @@ func init() {
 	reg("fmt.Println", discard)
 	reg("fmt.Print", discard)
 	reg("errors.New", func(fr *frame, a []value) value { return mkError(a[0]) })
+	reg("(*errors.errorString).Error", func(fr *frame, a []value) value {
+		p := a[0].(*value)
+		if p == nil {
+			panic(runtimeError("invalid memory address or nil pointer dereference"))
+		}
+		return (*p).(structure)[0]
+	})
 }
